@@ -46,7 +46,7 @@ ANCHORS = ['pfhedge.nn.functional:d1',
            'pfhedge.nn.modules.ww:WhalleyWilmott.forward',
            'pfhedge.nn.modules.hedger:Hedger.compute_hedge']
 PYTEST_WORKLOAD = True  # thorough tier also runs /repo/tests with these passive monitors attached (DESIGN.md 2.7)
-DECIDING = ["nan_watch", "limit.price", "limit.delta", "reject.negative", "hedger.finite"]
+DECIDING = ["extreme.finite", "nan_watch", "limit.price", "limit.delta", "reject.negative", "hedger.finite"]
 REQUIRED_BRANCHES = ["reject.python_scalar_argument", "hedger.zero_volatility_underlier", "reject.other_argument_all_zero", "t=0", "sigma=0", "both=0", "tiny", "at_strike", "hedger.bs", "hedger.ww"]
 
 _CTX = None
@@ -218,6 +218,36 @@ def drv_boundary(ctx, k, rng):
     if k < 4:
         ctx.sample({"driver": "boundary", "dtype": str(dtype), "via": via, "call": call, "K": K, "s": S_, "t": T_, "sigma": V_, "m": M_,
                     "european_price": res["eu_p"], "lookback_price": res["lb_p"], "american_binary_delta": res["ab_d"]})
+
+
+def drv_extreme(ctx, k, rng):
+    """Very large |log-moneyness| on the out-of-the-money side with ordinary maturity and volatility (the spot is still representable - it underflows
+    towards zero): prices and deltas take their limits, and the Whalley-Wilmott strategy (delta and band from gamma) stays finite."""
+    from pfhedge.instruments import BrownianStock, EuropeanOption
+
+    dtype = pick(rng, [F32, F64])
+    big = [60.0, 88.0, 90.0, 104.0, 120.0, 300.0] if dtype == F32 else [300.0, 709.0, 720.0, 746.0, 800.0, 2000.0]
+    s = -t(np.array([pick(rng, big) for _ in range(6)]), dtype)
+    tt = t(10 ** rng.uniform(-2, 0.3, 6), dtype)
+    v = t(rng.uniform(0.05, 0.8, 6), dtype)
+    prev = t(rng.uniform(-0.5, 1.0, 6), dtype)
+    d = EuropeanOption(BrownianStock(cost=float(pick(rng, [1e-4, 1e-3, 1e-2])), dtype=dtype), strike=float(pick(rng, [1.0, 2.0])))
+    ww = WhalleyWilmott(d, a=float(pick(rng, [0.5, 1.0, 5.0])))
+    mon = "extreme.finite"
+    with torch.no_grad():
+        got = {
+            "european call price": F.bs_european_price(s, tt, v), "european call delta": F.bs_european_delta(s, tt, v),
+            "binary call price": F.bs_european_binary_price(s, tt, v), "binary call delta": F.bs_european_binary_delta(s, tt, v),
+            "european gamma (Whalley-Wilmott band)": F.bs_european_gamma(s, tt, v),
+            "whalley_wilmott width": ww.width(torch.stack([s, tt, v], -1)).reshape(-1),
+            "whalley_wilmott hedge": ww(torch.stack([s, tt, v, prev], -1)).reshape(-1),
+        }
+    for name, val in got.items():
+        ctx.seen(mon)
+        fin = bool(torch.isfinite(val).all())
+        zero = name.endswith("hedge") or bool((val.abs() <= 1e-30).all())  # every one of these is 0 in the limit (the hedge is the clamped previous hedge)
+        ctx.check(mon, fin and zero, "extreme." + name.split(" (")[0].replace(" ", "_"), f"{name} at log-moneyness {s.tolist()} (t, sigma ordinary) = {val.tolist()}: "
+                  "expected finite and zero", sig=(name, str(dtype)), log_moneyness=s, time_to_maturity=tt, volatility=v, observed=val)
 
 
 def drv_reject(ctx, k, rng):
@@ -394,6 +424,7 @@ def drv_witness(ctx, k, rng):
 
 
 DRIVERS = [
+    ("extreme", 16, 400, drv_extreme),
     ("witness", 3, 3, drv_witness),
     ("boundary", 300, 20000, drv_boundary),
     ("reject", 40, 1500, drv_reject),
